@@ -39,7 +39,12 @@ class RegexStub:
     U = UNICODE = 32
     A = ASCII = 256
     class error(Exception):
-        pass
+        """like regex.error / re.error: message, pattern and position as attributes"""
+
+        def __init__(self, msg='', pattern=None, pos=None):
+            super().__init__(msg)
+            self.msg, self.pattern, self.pos = msg, pattern, pos
+            self.lineno = self.colno = None
 
     groups = 1                  # attributes of a compiled pattern
     groupindex = {}
@@ -60,6 +65,7 @@ class RegexStub:
         self._hits[0] = v
 
     rejects = False          # this engine refuses to compile the pattern (raises its `error`)
+    reject_once = [None]     # shared: the NEXT engine entry / compile is refused with this message, once
 
     times_out = [False]          # shared flag: the NEXT engine entry hits its timeout (raises TimeoutError), once
 
@@ -67,6 +73,9 @@ class RegexStub:
         self.log.append((name, 'timeout' in kw, kw.get('timeout')))
         if self.rejects:
             raise self.error("engine rejects the pattern")
+        if RegexStub.reject_once[0]:
+            msg, RegexStub.reject_once[0] = RegexStub.reject_once[0], None
+            raise self.error(msg)
         if RegexStub.times_out[0] and 'timeout' in kw:
             RegexStub.times_out[0] = False
             raise TimeoutError("regex timed out")
@@ -74,6 +83,9 @@ class RegexStub:
     def compile(self, pattern, flags=0, **kw):
         if self.rejects:
             raise self.error("engine rejects the pattern")
+        if RegexStub.reject_once[0]:
+            msg, RegexStub.reject_once[0] = RegexStub.reject_once[0], None
+            raise self.error(msg)
         r = RegexStub(0, self.log, True)
         r._hits = self._hits
         return r
@@ -268,9 +280,15 @@ class StepBudget(Exception):
 SIZES = [0, 50, 65535, 65537, 100000]
 
 
-def python_steps(pi: int, si: int, twice: bool) -> None:
+SPECIAL = [None, chr(92) + '{"k": {s<=}' + chr(92) + '}', 'x{i<} {e<=1}', '(?:a|a)+$|(' + chr(92) * 34 + 'x)', '(?P<n>a)(?P=n)' + '[' * 3 + chr(92) + ']' + ']' * 2,
+           'a' * 40 + '!' , '{' * 30 + '}' * 30]
+MESSAGES = [None, 'bad fuzzy constraint at position 7', 'missing ), unterminated subpattern at position 0', 'nothing to repeat at position 0',
+            'bad escape (end of pattern) at position 3', 'unbalanced parenthesis at position 2']
+
+
+def python_steps(pi: int, si: int, twice: bool, sp: int = 0, mi: int = 0) -> None:
     """
-    pre: 0 <= pi < 5 and 0 <= si < 5
+    pre: 0 <= pi < 5 and 0 <= si < 5 and 0 <= sp < 7 and 0 <= mi < 6
     post: True
     """
     # with the engine stubbed, the number of Python source lines executed inside smartquery/functions.py by one builtin
@@ -278,13 +296,17 @@ def python_steps(pi: int, si: int, twice: bool) -> None:
     # Python-level phase before / after the engine call).  Sizes come from a pool that brackets 2**16 and reaches 10**5.
     hlib.enter(locals())
     name = hlib.PARAM["fn"]
-    pi, si = hlib.concrete(pi, 0, 4), hlib.concrete(si, 0, 4)
+    pi, si, sp, mi = hlib.concrete(pi, 0, 4), hlib.concrete(si, 0, 4), hlib.concrete(sp, 0, 6), hlib.concrete(mi, 0, 5)
     hlib.assume(si in (0, 4))
+    hlib.assume(sp == 0 or (pi == 0 and not twice))          # special patterns: one call each
+    hlib.assume(mi == 0 or sp != 0 or pi == 1)
     twice = True if twice else False
     over = None
     with hlib.native():
         import sys as _sys
         pattern, subject = 'ab|' * (SIZES[pi] // 3) + 'x' * (SIZES[pi] % 3), 'a' * SIZES[si]
+        if SPECIAL[sp] is not None:
+            pattern = SPECIAL[sp]          # syntax a pre- / post-processing step might look at (braces, escapes, groups)
         cap = 3000 + 4 * (len(pattern) + len(subject))
         count = [0]
         mon = _sys.monitoring
@@ -306,6 +328,7 @@ def python_steps(pi: int, si: int, twice: bool) -> None:
             mon.set_events(TOOL, mon.events.LINE)
             for _k in range(2 if twice else 1):
                 count[0] = 0
+                RegexStub.reject_once[0] = MESSAGES[mi]          # the engine may refuse the pattern once, with a realistic message
                 try:
                     FUNCTIONS[name](subject, pattern, 'i')
                 except StepBudget:
@@ -314,6 +337,7 @@ def python_steps(pi: int, si: int, twice: bool) -> None:
                 except Exception:
                     pass
         finally:
+            RegexStub.reject_once[0] = None
             mon.set_events(TOOL, 0)
             mon.register_callback(TOOL, mon.events.LINE, None)
             mon.free_tool_id(TOOL)
@@ -321,3 +345,58 @@ def python_steps(pi: int, si: int, twice: bool) -> None:
             _restore(saved)
     assert over is None, "%s executes more than %d Python lines in functions.py for a pattern of %d and a subject of %d characters (engine stubbed): an unbounded or super-linear phase outside the regex timeout" % (name, over[2] if over else 0, over[0] if over else 0, over[1] if over else 0)
     hlib.done()
+
+
+# ---- a failing call repeated: whatever it leaves in the module stops changing -------------------------------------------
+def _module_state():
+    out = {}
+    for k, v in vars(functions).items():
+        if k.startswith('__') or isinstance(v, (_types.ModuleType, _types.FunctionType, _types.BuiltinFunctionType, type)) or isinstance(v, RegexStub):
+            continue
+        if k == 'FUNCTIONS':
+            continue
+        r = repr(v)
+        if hasattr(v, '_value'):
+            r += ' value=%r' % (getattr(v, '_value'),)          # semaphores / counters
+        out[k] = r[:300]
+    return out
+
+
+def failing_call_repeated(fi: int, how: int) -> None:
+    """
+    pre: 0 <= fi <= 2 and 0 <= how <= 2
+    post: True
+    """
+    # the same failing call (engine refuses the pattern / times out / the subject is not a string) three times in a row:
+    # the module-level state after the third call equals the state after the second (caches may fill once; nothing may
+    # drift with every failure - a budget, a counter, a slot)
+    hlib.enter(locals())
+    fi, how = hlib.concrete(fi, 0, 2), hlib.concrete(how, 0, 2)
+    name = ['match', 'match_groups', 'match_all'][fi]
+    with hlib.native():
+        diff = _repeat_failing(name, how)
+    assert not diff, "%s failing the same way again and again keeps changing module-level state: %r" % (name, diff)
+    hlib.done()
+
+
+def _repeat_failing(name, how):
+    snaps = []
+    for _k in range(3):
+        stub = RegexStub(1)
+        saved = _install(stub, Clock([0.0, 0.0, 0.0]))
+        first = getattr(functions, 'regex', None)
+        if how == 0 and isinstance(first, RegexStub):
+            mine = RegexStub(1, stub.log)
+            mine.rejects = True
+            functions.regex = mine
+        RegexStub.times_out[0] = (how == 1)
+        try:
+            try:
+                FUNCTIONS[name](12345 if how == 2 else 'abcdefgh', 'a(b)?', 'i')
+            except Exception:
+                pass
+        finally:
+            RegexStub.times_out[0] = False
+            _restore(saved)
+        snaps.append(_module_state())
+    return {k: (snaps[1].get(k), snaps[2].get(k)) for k in set(snaps[1]) | set(snaps[2]) if snaps[1].get(k) != snaps[2].get(k)}
